@@ -126,3 +126,137 @@ package enum
 //@   loop 0 invariant forall k :: 0 <= k && k <= rangeindex ==> an.Children[k].Comment == e.values[k].Comment && spells(e.values[k].Value, an.Children[k].Value)
 //@   loop 0 invariant forall k :: 0 <= k && k <= rangeindex ==> (e.values[k].Value.$arr == 0 ? (an.Children[k].TokenType == jschema.TokenTypeNull && an.Children[k].SchemaType == "comment") : (an.Children[k].TokenType == tokenOfSchemaType(e.values[k].Type) && an.Children[k].SchemaType == e.values[k].Type))
 //@   loop 0 decreases len(e.values) - rangeindex
+
+// ---- C18/C05: the literals of an enum rule are JSON scalars as in a schema: strings
+// (escapes, control bytes), numbers WITHOUT exponent, true/false/null.  Errors are
+// returned (not raised); the step field holds a method value of the same scanner ----
+//@ func (*scanner).stateInString(c)
+//@   props C18 C05
+//@   requires s != nil && 1 <= s.index && s.index <= len(s.data)
+//@   nopanic
+//@   modifies s.step, s.unfinishedLiteral
+//@   ensures (result1 != nil) <==> (c < 32 && c != '"' && c != 92)
+//@   ensures result1 != nil ==> typeis(result1, errors.DocumentError)
+//@   ensures c == '"' ==> boundis(s.step, scanner, "stateEndValue") && !s.unfinishedLiteral
+//@   ensures c == 92 ==> boundis(s.step, scanner, "stateInStringEsc") && s.unfinishedLiteral == old(s.unfinishedLiteral)
+//@   ensures c != '"' && c != 92 ==> s.step == old(s.step) && s.unfinishedLiteral == old(s.unfinishedLiteral)
+//@ func (*scanner).stateInStringEscU(c)
+//@   props C18 C05
+//@   requires s != nil && 1 <= s.index && s.index <= len(s.data)
+//@   nopanic
+//@   modifies s.step
+//@   ensures (result1 != nil) <==> !isHexDigit(c)
+//@   ensures result1 == nil ==> boundis(s.step, scanner, "stateInStringEscU1")
+//@   ensures result1 != nil ==> s.step == old(s.step) && typeis(result1, errors.DocumentError)
+//@ func (*scanner).stateInStringEscU1(c)
+//@   props C18 C05
+//@   requires s != nil && 1 <= s.index && s.index <= len(s.data)
+//@   nopanic
+//@   modifies s.step
+//@   ensures (result1 != nil) <==> !isHexDigit(c)
+//@   ensures result1 == nil ==> boundis(s.step, scanner, "stateInStringEscU12")
+//@   ensures result1 != nil ==> s.step == old(s.step) && typeis(result1, errors.DocumentError)
+//@ func (*scanner).stateInStringEscU12(c)
+//@   props C18 C05
+//@   requires s != nil && 1 <= s.index && s.index <= len(s.data)
+//@   nopanic
+//@   modifies s.step
+//@   ensures (result1 != nil) <==> !isHexDigit(c)
+//@   ensures result1 == nil ==> boundis(s.step, scanner, "stateInStringEscU123")
+//@   ensures result1 != nil ==> s.step == old(s.step) && typeis(result1, errors.DocumentError)
+//@ func (*scanner).stateNeg(c)
+//@   props C18 C05
+//@   requires s != nil && 1 <= s.index && s.index <= len(s.data)
+//@   nopanic
+//@   modifies s.step, s.unfinishedLiteral
+//@   ensures (result1 != nil) <==> !('0' <= c && c <= '9')
+//@   ensures result1 == nil ==> !s.unfinishedLiteral && (c == '0' ? boundis(s.step, scanner, "state0") : boundis(s.step, scanner, "state1"))
+//@   ensures result1 != nil ==> typeis(result1, errors.DocumentError)
+//@ func (*scanner).stateDot(c)
+//@   props C18 C05
+//@   requires s != nil && 1 <= s.index && s.index <= len(s.data)
+//@   nopanic
+//@   modifies s.step, s.unfinishedLiteral
+//@   ensures (result1 != nil) <==> !('0' <= c && c <= '9')
+//@   ensures result1 == nil ==> !s.unfinishedLiteral && boundis(s.step, scanner, "stateDot0")
+//@   ensures result1 != nil ==> typeis(result1, errors.DocumentError)
+//@ func (*scanner).stateT(c)
+//@   props C18 C05
+//@   requires s != nil && 1 <= s.index && s.index <= len(s.data)
+//@   nopanic
+//@   modifies s.step, s.unfinishedLiteral
+//@   ensures (result1 != nil) <==> c != 'r'
+//@   ensures result1 != nil ==> typeis(result1, errors.DocumentError)
+//@   ensures result1 == nil ==> boundis(s.step, scanner, "stateTr") && s.unfinishedLiteral == old(s.unfinishedLiteral)
+//@ func (*scanner).stateTr(c)
+//@   props C18 C05
+//@   requires s != nil && 1 <= s.index && s.index <= len(s.data)
+//@   nopanic
+//@   modifies s.step, s.unfinishedLiteral
+//@   ensures (result1 != nil) <==> c != 'u'
+//@   ensures result1 != nil ==> typeis(result1, errors.DocumentError)
+//@   ensures result1 == nil ==> boundis(s.step, scanner, "stateTru") && s.unfinishedLiteral == old(s.unfinishedLiteral)
+//@ func (*scanner).stateTru(c)
+//@   props C18 C05
+//@   requires s != nil && 1 <= s.index && s.index <= len(s.data)
+//@   nopanic
+//@   modifies s.step, s.unfinishedLiteral
+//@   ensures (result1 != nil) <==> c != 'e'
+//@   ensures result1 != nil ==> typeis(result1, errors.DocumentError)
+//@   ensures result1 == nil ==> boundis(s.step, scanner, "stateEndValue") && !s.unfinishedLiteral
+//@ func (*scanner).stateF(c)
+//@   props C18 C05
+//@   requires s != nil && 1 <= s.index && s.index <= len(s.data)
+//@   nopanic
+//@   modifies s.step, s.unfinishedLiteral
+//@   ensures (result1 != nil) <==> c != 'a'
+//@   ensures result1 != nil ==> typeis(result1, errors.DocumentError)
+//@   ensures result1 == nil ==> boundis(s.step, scanner, "stateFa") && s.unfinishedLiteral == old(s.unfinishedLiteral)
+//@ func (*scanner).stateFa(c)
+//@   props C18 C05
+//@   requires s != nil && 1 <= s.index && s.index <= len(s.data)
+//@   nopanic
+//@   modifies s.step, s.unfinishedLiteral
+//@   ensures (result1 != nil) <==> c != 'l'
+//@   ensures result1 != nil ==> typeis(result1, errors.DocumentError)
+//@   ensures result1 == nil ==> boundis(s.step, scanner, "stateFal") && s.unfinishedLiteral == old(s.unfinishedLiteral)
+//@ func (*scanner).stateFal(c)
+//@   props C18 C05
+//@   requires s != nil && 1 <= s.index && s.index <= len(s.data)
+//@   nopanic
+//@   modifies s.step, s.unfinishedLiteral
+//@   ensures (result1 != nil) <==> c != 's'
+//@   ensures result1 != nil ==> typeis(result1, errors.DocumentError)
+//@   ensures result1 == nil ==> boundis(s.step, scanner, "stateFals") && s.unfinishedLiteral == old(s.unfinishedLiteral)
+//@ func (*scanner).stateFals(c)
+//@   props C18 C05
+//@   requires s != nil && 1 <= s.index && s.index <= len(s.data)
+//@   nopanic
+//@   modifies s.step, s.unfinishedLiteral
+//@   ensures (result1 != nil) <==> c != 'e'
+//@   ensures result1 != nil ==> typeis(result1, errors.DocumentError)
+//@   ensures result1 == nil ==> boundis(s.step, scanner, "stateEndValue") && !s.unfinishedLiteral
+//@ func (*scanner).stateN(c)
+//@   props C18 C05
+//@   requires s != nil && 1 <= s.index && s.index <= len(s.data)
+//@   nopanic
+//@   modifies s.step, s.unfinishedLiteral
+//@   ensures (result1 != nil) <==> c != 'u'
+//@   ensures result1 != nil ==> typeis(result1, errors.DocumentError)
+//@   ensures result1 == nil ==> boundis(s.step, scanner, "stateNu") && s.unfinishedLiteral == old(s.unfinishedLiteral)
+//@ func (*scanner).stateNu(c)
+//@   props C18 C05
+//@   requires s != nil && 1 <= s.index && s.index <= len(s.data)
+//@   nopanic
+//@   modifies s.step, s.unfinishedLiteral
+//@   ensures (result1 != nil) <==> c != 'l'
+//@   ensures result1 != nil ==> typeis(result1, errors.DocumentError)
+//@   ensures result1 == nil ==> boundis(s.step, scanner, "stateNul") && s.unfinishedLiteral == old(s.unfinishedLiteral)
+//@ func (*scanner).stateNul(c)
+//@   props C18 C05
+//@   requires s != nil && 1 <= s.index && s.index <= len(s.data)
+//@   nopanic
+//@   modifies s.step, s.unfinishedLiteral
+//@   ensures (result1 != nil) <==> c != 'l'
+//@   ensures result1 != nil ==> typeis(result1, errors.DocumentError)
+//@   ensures result1 == nil ==> boundis(s.step, scanner, "stateEndValue") && !s.unfinishedLiteral
